@@ -842,3 +842,128 @@ func (c *Ctx) checkLexerTokenOrder(rule string) {
 		c.undecided(rule, "Lexer.LexNextRune", "flush before queueing", lex.Pos(), fmt.Sprintf("only %d flush/queue pairs found", n))
 	}
 }
+
+// checkIteratorStopsYielding: C01-ITER. ParsingIter is a push iterator: once
+// the consumer's loop body has returned false, calling yield again is a run-time
+// panic. The routines that pause in the middle of a parse all call p.yield and
+// unwind through ParsingIter, which yields once more at the end; so the
+// function stored in p.yield (and used by ParsingIter itself) must be a guard
+// that remembers a false answer and never calls the raw yield again.
+func (c *Ctx) checkIteratorStopsYielding(rule string) {
+	iter := c.mustFn(rule, "Parser.ParsingIter")
+	yieldF := c.field("Parser", "yield")
+	if iter == nil || yieldF == nil || len(iter.AnonFuncs) == 0 {
+		c.undecided(rule, "Parser.ParsingIter", "iterator body", token.NoPos, "ParsingIter's iterator closure not found")
+		return
+	}
+	body := iter.AnonFuncs[0]
+	if len(body.Params) == 0 {
+		c.undecided(rule, "Parser.ParsingIter", "iterator body", body.Pos(), "the iterator closure has no yield parameter")
+		return
+	}
+	raw := body.Params[0]
+	// every call of the raw yield, in the body or in closures made by it
+	type site struct {
+		fn *ssa.Function
+		in ssa.Instruction
+	}
+	var rawCalls []site
+	var walk func(f *ssa.Function, rawIn map[ssa.Value]bool)
+	walk = func(f *ssa.Function, rawIn map[ssa.Value]bool) {
+		// values in f that denote the raw yield: the parameter itself, loads of cells that hold it, free variables bound to it
+		isRaw := func(v ssa.Value) bool {
+			if rawIn[v] {
+				return true
+			}
+			if ld, ok := v.(*ssa.UnOp); ok && ld.Op == token.MUL && rawIn[ld.X] {
+				return true
+			}
+			return false
+		}
+		// cells that only ever receive the raw yield
+		for changed := true; changed; {
+			changed = false
+			eachInstr(f, func(b *ssa.BasicBlock, i int, in ssa.Instruction) {
+				if st, ok := in.(*ssa.Store); ok && isRaw(st.Val) && !rawIn[st.Addr] {
+					if al, ok := st.Addr.(*ssa.Alloc); ok {
+						only := true
+						for _, r := range *al.Referrers() {
+							if s2, ok := r.(*ssa.Store); ok && s2.Addr == ssa.Value(al) && !isRaw(s2.Val) {
+								only = false
+							}
+						}
+						if only {
+							rawIn[st.Addr] = true
+							changed = true
+						}
+					}
+				}
+			})
+		}
+		eachInstr(f, func(b *ssa.BasicBlock, i int, in ssa.Instruction) {
+			if ci, ok := in.(ssa.CallInstruction); ok && !ci.Common().IsInvoke() && ci.Common().StaticCallee() == nil && isRaw(ci.Common().Value) {
+				rawCalls = append(rawCalls, site{f, in})
+			}
+			if mc, ok := in.(*ssa.MakeClosure); ok {
+				g := mc.Fn.(*ssa.Function)
+				inner := map[ssa.Value]bool{}
+				for k, bnd := range mc.Bindings {
+					if isRaw(bnd) || rawIn[bnd] {
+						inner[g.FreeVars[k]] = true
+					}
+				}
+				if len(inner) > 0 {
+					walk(g, inner)
+				}
+			}
+		})
+	}
+	bodyRaw := map[ssa.Value]bool{raw: true}
+	walk(body, bodyRaw)
+	if len(rawCalls) == 0 {
+		c.undecided(rule, "Parser.ParsingIter", "calls of the consumer's yield", body.Pos(), "no call of the iterator's yield parameter found")
+		return
+	}
+	for _, s := range rawCalls {
+		// the call must be skipped once a flag says the consumer is gone, and a false answer must set that flag
+		guarded := guardedBy(s.in.Block(), func(cond ssa.Value) (bool, bool) {
+			_, isLoad := cond.(*ssa.UnOp)
+			return isLoad, false
+		})
+		setsFlag := false
+		if call, ok := s.in.(*ssa.Call); ok {
+			// `if !raw(reply) { flag = true }`: on the false side of the call's result a bool cell is set to true
+			for _, ref := range *call.Referrers() {
+				if iff, ok := ref.(*ssa.If); ok {
+					falseSide := iff.Block().Succs[1]
+					for _, in2 := range falseSide.Instrs {
+						if st, ok := in2.(*ssa.Store); ok {
+							if k, ok := st.Val.(*ssa.Const); ok && k.Value != nil && k.Value.String() == "true" {
+								setsFlag = true
+							}
+						}
+					}
+				}
+			}
+		}
+		c.check(guarded && setsFlag && s.fn != body, rule, "Parser.ParsingIter", "the consumer's yield is called only through a guard that remembers `false`", s.in.Pos(),
+			"the raw yield is called inside a wrapper that first tests a `consumer gone` flag and sets it when yield answers false",
+			"the iterator (or a routine paused inside it) can call the consumer's yield again after it answered false: when the REPL or read leaves its loop while a parse is paused, the unwinding parse reports its end of input through yield and the Go runtime panics (`range function continued iteration after function for loop body returned false`), which kills the process from the REPL")
+	}
+	// and p.yield is that wrapper, not the raw parameter
+	okField := false
+	eachInstr(body, func(b *ssa.BasicBlock, i int, in ssa.Instruction) {
+		if st, ok := in.(*ssa.Store); ok {
+			if fa, ok := st.Addr.(*ssa.FieldAddr); ok && faField(fa) == yieldF {
+				v := st.Val
+				isRawV := bodyRaw[v]
+				if ld, ok := v.(*ssa.UnOp); ok && ld.Op == token.MUL && bodyRaw[ld.X] {
+					isRawV = true
+				}
+				okField = !isRawV
+			}
+		}
+	})
+	c.check(okField, rule, "Parser.ParsingIter", "paused routines get the guarded yield", body.Pos(),
+		"Parser.yield is set to the guarding wrapper", "Parser.yield is the consumer's raw yield function: routines that were paused call it while they unwind after the consumer has gone")
+}
